@@ -241,7 +241,7 @@ def recorded_sessions(puppet, tier, rnd):
     ill = ill_typed(puppet)
     rnd.shuffle(ill)
     if quick:
-        ill = ill[:90]
+        ill = ill[:60]
     chunks = [bad[i:i + 11] for i in range(0, len(bad), 11)] + [ill[i:i + 15] for i in range(0, len(ill), 15)]
     for i, ch in enumerate(chunks):
         out.append({"id": f"mut-none-{i:02d}", "requests": [INIT()] + [dict(r) for r in ch] + [DISC(False)], "holds": [],
@@ -254,7 +254,7 @@ def recorded_sessions(puppet, tier, rnd):
     out.append({"id": "all-commands-stopped", "requests": prelude_stopped(puppet) + [R("scopes", {"frameId": "$frame"}), GOTOT()] + wf + [DISC(True)],
                 "holds": [], "origin": "every command once, stopped"})
     # ---- random request sequences over the catalogue (seeded) ----
-    n_rand = 12 if quick else 120
+    n_rand = 8 if quick else 100
     pool = [lambda: INIT(), lambda: launch(puppet, (1, 1, 1, 1, 0, 0, 0)), SETBP, CONFDONE, lambda: R("continue", {}, "continue", "ok"), NEXT,
             lambda: R("pause", {}, "pause", "ok"), lambda: R("restart", {}, "restart", "ok"), THREADS, STACK, lambda: R("modules", {}),
             lambda: R("terminateThreads", {"threadIds": []}, "termthreads", "empty"), lambda: R("evaluate", {}, "query", "bad"),
